@@ -7,6 +7,7 @@ import (
 
 func TestC01(t *testing.T) { runRapid(t, "C01") }
 func TestC02(t *testing.T) { runRapid(t, "C02") }
+func TestC13(t *testing.T) { runRapid(t, "C13") }
 func TestC04(t *testing.T) { runRapid(t, "C04") }
 func TestC08(t *testing.T) { runRapid(t, "C08") }
 func TestC03(t *testing.T) { runRapid(t, "C03") }
